@@ -325,6 +325,10 @@ pub struct Opts {
     pub no_discipline: bool,
     /// nested arrivals on model thread 1 are queued with payload base + n (0 = plain raise)
     pub nest_value_t1: usize,
+    /// also offer a scheduling decision right *after* every publishing operation (successful RMW /
+    /// store with release semantics), before the code that follows it runs: an access through a
+    /// reference obtained earlier ("publish, then touch") becomes explorable
+    pub post_points: bool,
 }
 
 pub trait Monitor {
@@ -1237,6 +1241,14 @@ fn hook_post(op: &shim::Op, real: u64, ok: bool) -> u64 {
         e.threads[t].cas_fails += 1;
     }
     stepped2(t, !(op.kind == shim::OP_LOAD || !ok));
+    if e.opts.post_points && e.phase == Phase::Parallel && ok && op.kind != shim::OP_LOAD && is_rel(op.ord) {
+        // "return from the operation" is a schedulable pseudo-operation of this thread
+        let visible = !e.opts.reduce || e.key_of(op.addr).map_or(true, is_shared);
+        if visible {
+            e.threads[t].pending = Pending::Op;
+            schedule(t);
+        }
+    }
     ret
 }
 
